@@ -143,8 +143,8 @@ theorem fromIeee_normal_eq_assemble (c : Cfg) (hv : c.valid = true) (seb sfb qm 
     rw [q1, postProcess_id c _ q2 q3, hRR]
     rw [Nat.add_sub_cancel_left]
 
-/-- convert_ieee754<long double> (`fromLD`, the x86-64 transcription with its own hidden-bit mask, shift counts modulo 64
-    and uint64_t composition) coincides with the generic transcription `fromIeee` at ⟨15, 63⟩ on every normal source
+/-- convert_ieee754<long double> (`fromLD`, the x86-64 transcription with its own hidden-bit mask, the guards for a shift
+    count of 64 and uint64_t composition) coincides with the generic transcription `fromIeee` at ⟨15, 63⟩ on every normal source
     whose exponent is a normal exponent of a target of at most 64 bits with fewer than 63 fraction bits: none of the
     long-double peculiarities is reached there (they live in the subnormal range and on the block path). -/
 theorem fromLD_eq_fromIeee_normal (c : Cfg) (hv : c.valid = true) (qm sm hm bits : Nat)
@@ -178,11 +178,10 @@ theorem fromLD_eq_fromIeee_normal (c : Cfg) (hv : c.valid = true) (qm sm hm bits
   have e3 : ¬ (¬ c.sub = true ∧ (rawExp : Int) - sbias < c.minExpNormal) := by
     intro hc; have := hc.2; omega
   have e4 : ¬ ((rawExp : Int) - sbias < c.minExpNormal) := by omega
-  have ht : (63 - c.fbits) % 64 = 63 - c.fbits := Nat.mod_eq_of_lt (by omega)
-  have ht1 : 63 - c.fbits ≥ 1 := by omega
+  have ht : 63 - c.fbits < 64 := by omega
   unfold fromLD fromIeee
   simp only [hspec, hre, hrf, hsb, hsg, hlay, e1, e2, e4, hfb, hexp0, if_false, if_true, ne_eq, not_false_eq_true,
-    Nat.add_zero, false_and, and_false, ht, ht1, decide_true, Bool.true_and]
+    Nat.add_zero, false_and, and_false, ht, decide_true, Bool.true_and]
   congr 1
   rw [Nat.or_mod_two_pow, Nat.or_mod_two_pow (a := _ <<< c.fbits), Nat.mod_mod_of_dvd _ (Nat.pow_dvd_pow 2 hn64)]
 
